@@ -32,7 +32,7 @@ void child_segv(int, siginfo_t *si, void *) {
 }
 void child_install_segv() {
     pthread_attr_t at;
-    if (pthread_getattr_np(pthread_self(), &at) == 0) {
+    if (g_stack_hi == 0 && pthread_getattr_np(pthread_self(), &at) == 0) {   // reads /proc/self/maps: once, in the parent
         void *sa = nullptr; size_t sz = 0;
         pthread_attr_getstack(&at, &sa, &sz);
         g_stack_lo = reinterpret_cast<uintptr_t>(sa); g_stack_hi = g_stack_lo + sz;
@@ -56,6 +56,15 @@ ChildOut run_in_child(Ctx &c, const Bytes &dg, int srv, uint8_t lo, uint8_t hi) 
     if (pipe(po) != 0 || pipe(pe) != 0) { fprintf(stderr, "VH-FATAL: pipe-failed\n"); abort(); }
     fflush(stdout);
     fflush(stderr);
+    if (g_stack_hi == 0) {
+        pthread_attr_t at;
+        if (pthread_getattr_np(pthread_self(), &at) == 0) {
+            void *sa = nullptr; size_t sz = 0;
+            pthread_attr_getstack(&at, &sa, &sz);
+            g_stack_lo = reinterpret_cast<uintptr_t>(sa); g_stack_hi = g_stack_lo + sz;
+            pthread_attr_destroy(&at);
+        }
+    }
     pid_t pid = fork();
     if (pid < 0) { fprintf(stderr, "VH-FATAL: fork-failed\n"); abort(); }
     if (pid == 0) {
@@ -190,7 +199,16 @@ std::vector<std::pair<std::string, std::string>> vg_reports(const std::string &t
 // parse / memcheck
 struct ParseStats { unsigned n_dg = 0, n_isolated = 0; bool strict_with_records = false; };
 
+void run_datagram_(Ctx &c, vh::Rng &r, const c15gen::Dg &dg, const std::string &domain, bool memcheck, ParseStats &ps);
 void run_datagram(Ctx &c, vh::Rng &r, const c15gen::Dg &dg, const std::string &domain, bool memcheck, ParseStats &ps) {
+    struct timespec t0, t1;
+    clock_gettime(CLOCK_MONOTONIC, &t0);
+    run_datagram_(c, r, dg, domain, memcheck, ps);
+    clock_gettime(CLOCK_MONOTONIC, &t1);
+    double ms = (t1.tv_sec - t0.tv_sec) * 1e3 + (t1.tv_nsec - t0.tv_nsec) / 1e6;
+    if (vh::st().args.verbose && ms > 100) fprintf(stderr, "[c15] slow datagram: class %s, %zu bytes, %.0f ms\n", dg.tag.c_str(), dg.b.size(), ms);
+}
+void run_datagram_(Ctx &c, vh::Rng &r, const c15gen::Dg &dg, const std::string &domain, bool memcheck, ParseStats &ps) {
     int srv = int(r.below(c.nsrv));
     size_t pa = r.below(5), pb = (pa + 1 + r.below(4)) % 5;
     if (memcheck) pa = r.below(3);   // small garbage counts: under valgrind a 65535-round loop of the unfixed reader costs seconds
@@ -373,7 +391,16 @@ struct UdpNet {
         pending = true;
     }
     void pass() { pump(1); finish_pending(); }
-    void drain() { for (int g = 0; sent > consumed && !ctx->by_id.empty() && g < 60; ++g) pass(); }
+    void drain() {
+        for (int g = 0; sent > consumed && !ctx->by_id.empty() && g < 60; ++g) pass();
+        if (sent > consumed && !ctx->by_id.empty() && !stuck_reported) {
+            stuck_reported = true;
+            vh::viol("udp/reply-left-unread-while-lookups-outstanding",
+                     vh::fmt("%llu datagram(s) from the fake servers are queued on the client's socket, %zu lookup(s) are outstanding, and 60 loop passes did not read them",
+                             (unsigned long long)(sent - consumed), ctx->by_id.size()));
+        }
+    }
+    bool stuck_reported = false;
     //! servers read the queries the client sent (learn its address; check each query names its lookup)
     void read_queries(Ctx &c) {
         for (int i = 0; i < 3; ++i) {
@@ -482,7 +509,7 @@ void history_case(uint64_t, vh::Rng &r, bool udp) {
     Ctx c;
     c.rng = &r;
     c.open(1 + int(r.below(3)));
-    if (udp) { g_net.ctx = &c; g_net.sent = g_net.consumed = 0; g_net.have_client = false; g_net.pending = false; }
+    if (udp) { g_net.ctx = &c; g_net.sent = g_net.consumed = 0; g_net.have_client = false; g_net.pending = false; g_net.stuck_reported = false; }
     Hist h(c, r, udp);
     unsigned nops = 12 + r.below(34);
     for (unsigned i = 0; i < nops; ++i) h.op();
